@@ -11,6 +11,7 @@ import (
 	"github.com/zerx-lab/wordZero/pkg/markdown"
 
 	"verifharness/internal/core"
+	"verifharness/internal/deep"
 	"verifharness/internal/rng"
 )
 
@@ -545,6 +546,25 @@ func c20Run(c *core.Ctx, keepTight int) (*core.Result, []string) {
 		return res, tightClasses
 	}
 	res.Count("documents_exported", 1)
+	// 0. an export reads the document: exporting the same document again (the same options, then other ones) gives the same
+	// Markdown again and leaves the body as it was
+	if r.Chance(1, 3) {
+		before := deep.Hash(d.Body)
+		var again string
+		o2 := markdown.DefaultExportOptions()
+		if cg := core.Catch(func() {
+			markdown.NewExporter(o2).ExportToString(d, o2)
+			again, _ = markdown.NewExporter(opts).ExportToString(d, opts)
+		}); cg == nil {
+			res.Count("documents_exported_again", 1)
+			if again != md1 {
+				res.Add("export/"+cls+"/same-document-exported-again-differs", "a second export of the same in-memory document with the same options gives other Markdown", optNote, "first:\n"+md1, "again:\n"+again)
+			}
+			if deep.Hash(d.Body) != before {
+				res.Add("export/"+cls+"/export-modifies-the-document", "the document body is not the same after it was exported", optNote, md1)
+			}
+		}
+	}
 	// 1. every run's text exactly once, in body order
 	pos := -1
 	orderOK := true
